@@ -860,6 +860,8 @@ impl Server {
         uri: Uri,
         version: i32,
     ) -> Result<(), Box<dyn Error>> {
+        #[cfg(parol_verif)]
+        crate::verif_driver::before_sync_publish(version);
         let result = PublishDiagnosticsParams::new(uri, vec![], Some(version));
         let params = serde_json::to_value(result).unwrap();
         let method = <PublishDiagnostics as Notification>::METHOD.to_string();
